@@ -111,6 +111,41 @@ GEN(int) @G(src []int) {
 	RETURN
 }`, Drives: []Drive{gen("int", "@G", "[]int{1, 2, 3}")}},
 
+	{Name: "DeadCodeAfterJump", Props: []string{"C03", "C01"}, Src: `
+// statements after an unconditional break / continue are unreachable; the rewriter drops them from rewritten
+// blocks - the point excluded by the guard of the scoping theorem (scopeOKL): behaviour and scoping of
+// everything reachable must be unaffected, declarations in the dead part included
+GEN(int) @G(n int) {
+	x := 1
+	for i := 0; i < n; i++ {
+		x := x + i
+		YIELD(x)
+		if i == 1 {
+			YIELD(-x)
+			continue
+			x := 100
+			YIELD(x)
+		}
+		if i == 3 {
+			break
+			x = 200
+			y := x
+			_ = y
+		}
+		YIELD(x * 10)
+	}
+	switch x {
+	case 1:
+		YIELD(7)
+		x := 5
+		YIELD(x)
+	default:
+		YIELD(8)
+	}
+	YIELD(x)
+	RETURN
+}`, Drives: []Drive{gen("int", "@G", "5"), gen("int", "@G", "2")}},
+
 	{Name: "RangeBodyRedeclares", Props: []string{"C04", "C03"}, Src: `
 // the body of a range statement is its own block: it may redeclare the range variables, and closures made
 // before the redeclaration keep seeing the range variables
